@@ -1,6 +1,7 @@
 """C02 - recreate + match preserves every original average (averaging round trip)."""
 import numpy as np
 
+from . import _match as M
 from . import _rfa as R
 from .. import gen, tol
 from ..core import fp_watch
@@ -37,6 +38,10 @@ def plan(tier, seed):
     ns = [2, 5, 10] if tier == "quick" else list(range(2, 65))
     specs += [{"kind": "datasets", "names": DATASETS[p::8], "ns": ns} for p in range(8)]
     return specs
+
+
+import os
+GSHARE = float(os.environ.get("TWVERIF_GSHARE", "0"))
 
 
 def pipeline(ctx, cid, x, y, strat, n, kw, append, rule, info):
@@ -81,6 +86,13 @@ def pipeline(ctx, cid, x, y, strat, n, kw, append, rule, info):
     nontrivial = strat == "PiecewiseConstantRFA"
     gmag = max(float(np.max(np.abs(res))), float(np.max(np.abs(ys0))), float(np.max(np.abs(yr))))
     ctx.monitor("c02:interval_means", m - 1)
+    # the end weights of a stretch vanish only to rounding: a fixed point legitimately carries ~eps of the shift
+    # factors of the two stretches it belongs to (bounded locally, as in C01 / C03 - see _match.end_leak)
+    mini = {"x": xl, "y": y0l, "alpha": 1.0}
+    fi = [k * n for k in range(m)]
+    yhat = M.yhat_estimates(mini, rl, fi)
+    leaks = [M.end_leak(mini, fi, yhat, k - 1) + 2 * M.end_leak(mini, fi, yhat, k) + M.end_leak(mini, fi, yhat, k + 1)
+             for k in range(m - 1)]
     for k in range(m - 1):
         width = float(xr[k + 1]) - float(xr[k])
         got = I.integ(xl, rl, k * n, (k + 1) * n, rule)
@@ -89,9 +101,11 @@ def pipeline(ctx, cid, x, y, strat, n, kw, append, rule, info):
         # (plus a small share of the global magnitude: the end weights of the neighbouring stretches are zero only
         #  to rounding, so an all-zero interval next to large values legitimately carries ~eps of them)
         sc = I.scale(xl, rl, k * n, (k + 1) * n, rule) + abs(want) + I.scale(xl, y0l, k * n, (k + 1) * n, rule) \
-            + 1e-3 * gmag * width
+            + GSHARE * gmag * width
+        # conditioning of this interval and its two neighbours, not of the whole grid
+        rel = tol.REL + tol.cond_local(xs, (k - 1) * n, (k + 2) * n)
         ctx.track_worst("interval_mean_rel_err", tol.err(got, want, sc))
-        if not tol.close(got, want, sc, rel):
+        if not tol.close(got, want, sc, rel) and not abs(got - want) <= rel * max(sc, abs(want)) + leaks[k] * width:
             ctx.violation("interval_mean", cid, {"interval": k, "mean_got": got / width, "average": float(yr[k]),
                                                  "rule": rule, "case": info})
             return False
@@ -112,8 +126,9 @@ def pipeline(ctx, cid, x, y, strat, n, kw, append, rule, info):
             return False
         for k in range(m - 1):
             sc = float(np.mean(np.abs(res[k * n:(k + 1) * n]))) + abs(float(yr[k])) + \
-                float(np.mean(np.abs(ys0[k * n:(k + 1) * n + 1]))) + 1e-3 * gmag
-            if not tol.close(ay[k], yr[k], sc, rel):
+                float(np.mean(np.abs(ys0[k * n:(k + 1) * n + 1]))) + GSHARE * gmag
+            rel = tol.REL + tol.cond_local(xs, (k - 1) * n, (k + 2) * n)
+            if not tol.close(ay[k], yr[k], sc, rel) and not abs(float(ay[k]) - float(yr[k])) <= rel * max(sc, abs(float(yr[k]))) + leaks[k]:
                 ctx.violation("block_average", cid, {"interval": k, "got": ay[k], "want": yr[k], "case": info})
                 return False
     return nontrivial
@@ -126,6 +141,17 @@ def run_random_case(ctx, kind_, idx):
     n = R.gen_n(rng)
     kw, _a = R.gen_params(rng, strat, n)
     x, y, meta = R.gen_series(rng, 2, 60, ties_share=0.3)
+    if rng.integers(0, 10) == 0:
+        mixed = gen.mixed_steps_x(rng, len(x))
+        if mixed is not None:
+            x, meta["xcls"] = mixed
+    if len(y) >= 4 and rng.integers(0, 10) == 0:
+        # burst then idle: a few averages many orders of magnitude above the rest of the same series
+        L = float(rng.choice([1e7, 1e9, 1e12, 2.0 ** 55]))
+        p = int(rng.integers(0, len(y) - 1))
+        y = np.array(y, dtype=float)
+        y[p:p + int(rng.integers(1, 3))] = (1.0 + rng.uniform(0, 1)) * L
+        meta["ycls"] = str(meta["ycls"]) + "+burst"
     append = [None, False, True][int(rng.integers(0, 3))]
     rule = ["trapezoid", "rectangle"][int(rng.integers(0, 2))]
     info = R.brief(strat, x, y, n, kw, meta)
